@@ -59,6 +59,11 @@ CHECKS = {
    "For file_system (inotify-faithful event sequences incl. duplicated and reordered delivery), http_endpoint (11-13 fetch outcomes per poll on two endpoints), cloud_blob (real ruleSetEndpoint over a scripted in-process gocloud driver with list/attribute/read faults) and kubernetes (informer callbacks incl. resync, tombstones, status-client faults) all histories up to depth 4-5 (quick) / 5-6 (thorough) are replayed on fresh real providers; at every quiescent state the active rule sets must equal the latest valid content of the existing sources and the processor log must show every change applied exactly once; panics in provider code are violations.",
    "The fsnotify/gocron/informer machinery is replaced by an environment model of the events it delivers (documented in the evidence assumptions); 5xx from an HTTP endpoint may preserve or remove (don't-care).",
    "DESIGN.md 4 C18"),
+ "C20": ("exploration", "enum",
+   "bounded exhaustive enumeration of file/environment splits (all subsets), conflicts, environment permutations and map iteration orders over structurally diverse configuration leaves, plus a schema-versus-loader product over every mechanism type and option, all through the real config.NewConfiguration and the real mechanism factory",
+   "For 7 leaf families (scalars, nested scalars, names with underscores, lists of structs with nested maps, lists inside structs inside lists, durations, sizes, booleans) every subset of leaves is given via the environment and the rest via the file, every leaf in both with different values, every permutation (<=5 variables) / rotation of the environment and every Go map iteration order with <=1 (quick) / <=2 (thorough) deviating iterations; the resulting Configuration must be deep-equal to the all-in-file load. For every mechanism kind/type/option the minimal configuration is given once in the file (schema validated) and once purely via the environment and must be usable (load + catalogue instantiation) in both or neither.",
+   "Environment values whose type clashes with the structure are don't-care (documented: refuses to start); maps with more than 8 entries are not exhaustively ordered (reported); nil vs empty collections compare equal.",
+   "DESIGN.md 4 C20"),
 }
 
 NOT_YET = {
